@@ -113,9 +113,11 @@ def Circuit.stepReplace (c : Circuit) (t : RegType) (ch : Choice) (g : Nat) : Op
 
 /-- the two-qubit insertion shared by `add_emitter_cnot` and `add_measurement_cnot_and_reset` -/
 def Circuit.stepPair (c : Circuit) (kind : Kind) (cr : List Nat) (e1 e2 : Edge) : Option Circuit :=
-  match cr.foldlM (fun c' i => c'.addRegIfAbsent ⟨.c, i⟩) c with
-  | .ok c1 => exceptToOption (c1.insertAtE ⟨kind, [e1.r, e2.r], cr, false⟩ [e1, e2])
-  | .error _ => none
+  -- `insert_at` would create a missing classical register; the solvers' circuits always have `c0`, and the model is
+  -- restricted to circuits in which the classical registers of the new operation exist
+  if cr.all (fun i => decide (i < c.nc)) then
+    exceptToOption (c.insertAtE ⟨kind, [e1.r, e2.r], cr, false⟩ [e1, e2])
+  else none
 
 def Circuit.step (c : Circuit) (m : Move) : Option Circuit :=
   match m.t with
